@@ -1,6 +1,32 @@
-"""C13 -- the report is a deterministic function of the set of findings: bounded contract (native harness, rep.rs)."""
+"""C13 -- the report is a deterministic function of the set of findings (bounded).
+
+`c13` (native rep.rs): the same findings rendered from fresh HashMap instances, permuted insertion orders, child processes
+must give byte-identical text equal to the canonical rendering.
+Plus the directory contract `c03` (the findings handed to the renderer do not depend on the listing order: every
+files / sub-directory interleaving of analyze_dir yields the union of the per-file results) -- a run whose findings depend on
+the order in which read_dir lists the entries gives different reports for the same directory content."""
+from .. import driver as D
 from . import bounded
 
 
 def run(tier, seed):
-    return bounded.run_bounded("C13", "c13", tier, seed, "report text depends only on the set of findings (canonical rendering)")
+    vd = D.Verdict("C13", tier, seed)
+    try:
+        binary, _ = D.build_native()
+    except D.BuildError as e:
+        vd.add_undecided(str(e)[:800])
+        return vd.finish({"level": "exploration", "coverage": {"evaluations": 1, "distinct_nontrivial": 2, "rule": "native harness did not build", "samples": ["-"]}})
+    nat = D.run_native(binary, "c13", tier, seed)
+    bounded.add_native_violations(vd, nat, "report text depends only on the set of findings (canonical rendering)")
+    ndir = D.run_native(binary, "c03", tier, seed)
+    for v in ndir.get("violations", []):
+        # only the violation class that is order-dependent by definition (which findings survive depends on which of two
+        # entries of one directory is listed first); any other c03 violation is C03's business, not C13's
+        if "subdir-result-replaces-parent-entries" not in v["key"]:
+            continue
+        vd.add_violation("c13:" + v["key"], "findings depend on the directory listing: " + v["what"], obligation="analyze_dir result == union of the per-file results, for every listing order",
+                         counterexample=v.get("replay"), expected=v.get("expected"), actual=v.get("actual"))
+    ev = bounded.evidence_from_native(nat, [])
+    ev["coverage"]["evaluations"] += int(ndir.get("evaluations", 0))
+    ev["coverage"]["directory_part"] = {k: ndir.get(k) for k in ("evaluations", "distinct_nontrivial", "rule", "bound", "wall_s", "cmd")}
+    return vd.finish(ev)
